@@ -416,6 +416,9 @@ def diff_glyph(e, a):
 LAYER_NAMES = ["foreground", "background", "Background", "BACKGROUND", "sketches", "con", "Layer 1", "public.background", "é", "a/b", "x" * 120, "X" * 120, "x" * 260, ".hidden", "glyphs", "layer:1", "\U0001F600"]
 
 
+INFO_ATTRS = ["familyName", "styleName", "unitsPerEm", "ascender", "descender", "italicAngle", "copyright", "note", "openTypeOS2WeightClass", "openTypeOS2WidthClass", "openTypeOS2Panose", "openTypeOS2Type", "postscriptBlueValues", "versionMajor", "versionMinor", "openTypeHeadCreated", "openTypeNameDesigner", "openTypeNameRecords", "guidelines", "woffMajorVersion", "woffMetadataCopyright"]
+
+
 def gen_info(r, fv):
     d = {}
     pick = lambda p: r.random() < p  # noqa: E731
@@ -725,6 +728,11 @@ def _exec_ufo(ctx, h, holder):
             for k, v in model["info"].items():
                 if getattr(o, k, None) != v:
                     fail("fontinfo-differs:" + k, "%s: wrote %r read %r" % (k, v, getattr(o, k, None)))
+                    break
+            # ... and nothing else: an attribute that an earlier writeInfo set and the last one did not
+            for k in INFO_ATTRS:
+                if k not in model["info"] and getattr(o, k, None) not in (None, [], {}):
+                    fail("fontinfo-stale-attribute:" + k, "%s was not in the last info written, the reader returns %r" % (k, getattr(o, k, None)))
                     break
         if model["kerning"] is not None:
             want_k, want_g = model["kerning"], model["groups"]
